@@ -315,7 +315,41 @@ def obs_delta(c, svc):
   return back, sorted(map(key, p1)) == sorted(map(key, p2))
 
 
-OBS = {'param': obs_param, 'metric': obs_metric, 'measurement': obs_measurement, 'trial': obs_trial, 'delta': obs_delta}
+def obs_config(c, svc):
+  """A StudyConfig, possibly received from the wire and edited, sent again."""
+  from vizier import pyvizier as vz
+  from vizier.service import pyvizier as svz
+  sc = svz.StudyConfig()
+  sc.search_space.root.add_float_param('x', 0.0, 1.0)
+  sc.metric_information.append(vz.MetricInformation('m', goal=vz.ObjectiveMetricGoal.MAXIMIZE))
+  sc.algorithm = c['algo']
+  if c['noise'] != 'unset':
+    sc.observation_noise = getattr(svz.ObservationNoise, c['noise'])
+  if c['root'] != 'absent':
+    sc.metadata['k'] = {'v': 'v', 'empty': ''}[c['root']]
+  if c['ns'] != 'absent':
+    sc.metadata.ns('algo')['state'] = 'v'
+  if c['edit'] != 'none':
+    sc = svz.StudyConfig.from_proto(sc.to_proto())          # received from the wire ...
+    if c['edit'] == 'delete_root' and 'k' in sc.metadata:   # ... and edited
+      del sc.metadata['k']
+    elif c['edit'] == 'delete_ns' and 'state' in sc.metadata.ns('algo'):
+      del sc.metadata.ns('algo')['state']
+    elif c['edit'] == 'overwrite_root':
+      sc.metadata['k'] = 'v'
+    elif c['edit'] == 'add_ns':
+      sc.metadata.ns('algo')['state'] = 'v'
+  p1 = sc.to_proto()
+  y = svz.StudyConfig.from_proto(p1)
+  p2 = y.to_proto()
+  root = y.metadata.get('k', None)
+  back = {'algo': y.algorithm, 'noise': 'unset' if y.observation_noise is None or y.observation_noise.name.endswith('UNSPECIFIED') else y.observation_noise.name,
+          'root': 'absent' if root is None else {'v': 'v', '': 'empty'}.get(root, 'other'),
+          'ns': 'v' if y.metadata.ns('algo').get('state', None) == 'v' else 'absent', 'edit': c['edit']}
+  return back, p1.SerializeToString(deterministic=True) == p2.SerializeToString(deterministic=True)
+
+
+OBS = {'config': obs_config, 'param': obs_param, 'metric': obs_metric, 'measurement': obs_measurement, 'trial': obs_trial, 'delta': obs_delta}
 WV = re.compile(r'<<"WV", (\d+), "(\w+)">>')
 
 
@@ -327,11 +361,13 @@ def run(ctx):
   all_obs = []
   with tlc.Scratch('c09') as d:
     tlc_states = 0
-    for mode in ('param', 'metric', 'measurement', 'trial', 'delta'):
+    for mode in ('param', 'metric', 'measurement', 'trial', 'delta', 'config'):
       cfg = os.path.join(d, 'W_%s.cfg' % mode)
       tlc.write_cfg(cfg, constants={'Mode': mode}, constraints=['Dump'])
       res = tlc.must_ok(tlc.run_tlc('Wire', cfg, d, workers=4), 'Wire/' + mode)
-      cases = list({json.dumps(r['case'], sort_keys=True): r['case'] for r in res.printed_json()}.values())
+      recs = list({json.dumps(r['case'], sort_keys=True): r for r in res.printed_json()}.values())
+      cases = [r['case'] for r in recs]
+      expects = {json.dumps(r['case'], sort_keys=True): r['expect'] for r in recs}
       if len(cases) != res.distinct or not cases:
         raise tlc.MachineryError('Wire enumeration incomplete for %s' % mode)
       tlc_states += res.distinct
@@ -339,13 +375,13 @@ def run(ctx):
         stats[mode] += 1
         try:
           back, idem = OBS[mode](c, svc)
-          all_obs.append({'mode': mode, 'case': c, 'back': back, 'idem': bool(idem), 'refused': False})
+          all_obs.append({'mode': mode, 'case': c, 'expect': expects[json.dumps(c, sort_keys=True)], 'back': back, 'idem': bool(idem), 'refused': False})
         except Exception as e:  # pylint: disable=broad-except
-          all_obs.append({'mode': mode, 'case': c, 'back': c, 'idem': True, 'refused': True, 'error': '%s: %s' % (type(e).__name__, str(e)[:150])})
+          all_obs.append({'mode': mode, 'case': c, 'expect': c, 'back': c, 'idem': True, 'refused': True, 'error': '%s: %s' % (type(e).__name__, str(e)[:150])})
       ctx.log('  Wire/%s: %d values enumerated by TLC and converted' % (mode, len(cases)))
     path = os.path.join(d, 'wire_obs.json')
     with open(path, 'w') as f:
-      json.dump([{k: v for k, v in o.items() if k in ('case', 'back', 'idem', 'refused')} for o in all_obs], f)
+      json.dump([{k: v for k, v in o.items() if k in ('case', 'expect', 'back', 'idem', 'refused')} for o in all_obs], f)
     cfg = os.path.join(d, 'W_judge.cfg')
     tlc.write_cfg(cfg, constants={'Mode': 'judge'}, constraints=['Judge'])
     res2 = tlc.must_ok(tlc.run_tlc('Wire', cfg, d, workers=8, env={'TRACE_FILE': path}), 'Wire/judge')
@@ -358,7 +394,7 @@ def run(ctx):
     counts[v] += 1
     if v == 'ok':
       continue
-    diff = sorted(k for k in o['case'] if o['back'].get(k) != o['case'][k]) if v == 'roundtrip' else []
+    diff = sorted(k for k in o['expect'] if o['back'].get(k) != o['expect'][k]) if v == 'roundtrip' else []
     sig = {'via': 'wire', 'type': o['mode'], 'verdict': v, 'fields': ','.join(diff)}
     for k in diff[:2]:
       sig['case_' + k] = json.dumps(o['case'][k])
